@@ -17,7 +17,7 @@ RULE = (
     "without '/' '#', some equal to the prefix part of statement IRIs) x statement sequences x {generic sink, rdflib Graph "
     "(bind_namespaces none and default) / Dataset} x TRIPLES / QUADS / GRAPHS x small tables (names 8..9, prefixes 0..3) so "
     "that declarations evict x entry {stream_frames with a container, Graph.serialize, flat_stream_to_file from a "
-    "statement generator, grouped_stream_to_file with two sources that each carry their own bindings}. Ground truth = list(source.namespaces) after the source's own binding rules. Oracles: Prefix "
+    "statement generator, grouped_stream_to_file with two sources that each carry their own bindings}. Ground truth = list(source.namespaces) after the source's own binding rules. Readers: flat, to-graph and grouped (bindings merged over the per-frame containers). Oracles: Prefix "
     "events of parse_jelly_flat == ground truth, in order; namespaces of the object returned by parse_jelly_to_graph == "
     "ground truth as a mapping; re-serialising that object reproduces the same declarations (read off the wire by the "
     "reference decoder); statements read back with the option on == with it off == input, and the call succeeds with the "
@@ -313,6 +313,20 @@ def body(case, acc):
     if got_map != want_map:
         diff = {k: (got_map.get(k), want_map.get(k)) for k in set(got_map) | set(want_map) if got_map.get(k) != want_map.get(k)}
         return Violation("C14:namespaces-after-parse-differ", f"differences (got, bound): {diff!r}", case)
+    # grouped reader: one container per frame; a declaration must be bound in (at least) the container of its frame,
+    # whether or not that frame carries statements
+    try:
+        sinks = list(pyj._parse_mod(integ).parse_jelly_grouped(io.BytesIO(on)))
+    except Exception as exc:  # noqa: BLE001
+        return Violation(f"C14:grouped-raises:{type(exc).__name__}", f"{integ} parse_jelly_grouped raised {exc!r}", case)
+    merged = {}
+    for sk in sinks:
+        for p, i in pyj.sink_namespaces(sk, integ):
+            merged[p] = tuple(i)
+    lost = [[p, i] for p, i in truth if merged.get(p) != tuple(i)]
+    if lost:
+        return Violation("C14:grouped-reader-loses-declarations", f"bound {truth!r}; the {len(sinks)} containers of "
+                         f"parse_jelly_grouped lack {lost!r}", case)
     if not from_gen:
         try:
             cfg = dict(case)
